@@ -130,6 +130,33 @@ fn establish_substitutions(o: &mut Outcome, seed: u64) {
     c2.push(0);
     present(o, "context(length)", &m.cfg, ag.cid, cb, mb, &c2);
     present(o, "context(fresh)", &m.cfg, ag.cid, cb, mb, b"another context");
+    // a long session transcript as context: a proof made for it must not verify under a
+    // transcript that differs late
+    {
+        let ll = 300 + s.usize(900);
+        let mut long = s.bytes(ll);
+        let agl = Agreed { cid: ag.cid, cust: cb, merch: mb, ctx_bytes: long.clone() };
+        let tl = forge::est_template(m, &agl, mix(&[seed, 5]));
+        let ok = forge::present_establish(m, &agl, &tl.bytes, "c06/est/long", seed);
+        if ok.accepted.is_none() {
+            crate::harness_error("C06: honest establish proof under a long context is refused (positive control)");
+        }
+        let n = long.len();
+        let (p3, p4) = (257 + s.usize(n - 258), s.usize(n));
+        for pos in [n - 1, 256, p3, p4] {
+            long[pos] ^= 0x40;
+            let proof: za::EstablishProof = bincode::deserialize(&tl.bytes).unwrap_or_else(|_| crate::harness_error("proof bytes"));
+            let mut rng = SimRng::new(seed, "c06/est/long-sub");
+            o.bump("fault.substitution.establish");
+            o.events += 1;
+            let cbal = za::CustomerBalance::try_new(cb).unwrap();
+            let mbal = za::MerchantBalance::try_new(mb).unwrap();
+            if m.cfg.initialize(&mut rng, &ag.cid, cbal, mbal, proof, &za::Context::new(&long)).is_some() {
+                o.violate("proof-accepted-under-substituted-tuple", "EstablishProof/context(long, one byte)", format!("an establish proof made for a {}-byte context is accepted under a context differing at byte {}", n, pos));
+            }
+            long[pos] ^= 0x40;
+        }
+    }
     present(o, "merchant-key(fresh)", &merchant("9002").cfg, ag.cid, cb, mb, &ag.ctx_bytes);
     for k in 0..3 {
         if let Some((cfg, what)) = near_config(m, "kp", s.u64(), mix(&[seed, k])) {
